@@ -62,6 +62,11 @@ func gen(rt *rapid.T) any {
 
 var autoRe = regexp.MustCompile(`_autoGo_\d+ redeclared`)
 
+// a selector whose left side is not a package although it is written like a reference to one
+var undefSelRe = regexp.MustCompile(`(\w+)\.(\w+) undefined \(type .* has no field or method`)
+
+var implicitBase = map[string]string{"big": "math/big", "strconv": "strconv", "strings": "strings", "fmt": "fmt", "builtin": "github.com/goplus/gogen/internal/builtin"}
+
 // gogen may add references of its own to these packages (documented implicit imports).
 var implicitOK = map[string]bool{"strconv": true, "strings": true, "math/big": true, "github.com/goplus/gogen/internal/builtin": true}
 
@@ -165,6 +170,25 @@ func exec1(rec any) *core.Outcome {
 	conf := types.Config{Importer: env.Exports.NewImporter(fset, p.Synthetics()), Error: func(err error) { terrs = append(terrs, err.Error()) }}
 	tpkg, _ := conf.Check(p.PkgPath, fset, files, info)
 	for _, e := range terrs {
+		// references gogen adds on its own (math/big for big-number literals, fmt for the
+		// overloaded println...) are not tagged by the front end: a reference written with
+		// the package's base name that resolves to a variable instead has been captured
+		if m := undefSelRe.FindStringSubmatch(e); m != nil {
+			if path, ok := implicitBase[m[1]]; ok {
+				if ip, err := conf.Importer.Import(path); err == nil && ip.Scope().Lookup(m[2]) != nil && ast.IsExported(m[2]) {
+					captured := true
+					for _, t := range res.C.RefTags {
+						if t.Path == path && t.Name == m[2] {
+							captured = false // an explicit reference: judged below with the file it belongs to
+						}
+					}
+					if captured {
+						out.Violate(P, "implicit-reference-captured", fmt.Sprintf("a reference to package %q that gogen added itself is shadowed by a declared identifier: %s", path, e))
+						return out
+					}
+				}
+			}
+		}
 		if autoRe.MatchString(e) {
 			out.Violate(P, "autoname-collision", "a generated helper name coincides with another declaration: "+e)
 			return out
